@@ -25,6 +25,22 @@ def _mutants_for(prop):
     return out
 
 
+def _seeded_for(prop):
+    """independently written, confirmed changes (see /verif/seeded/*/meta.json) that this property's check is recorded to catch"""
+    d = os.path.join(VERIF, "seeded")
+    out = []
+    if not os.path.isdir(d):
+        return out
+    for name in sorted(os.listdir(d)):
+        meta = os.path.join(d, name, "meta.json")
+        if os.path.exists(meta):
+            m = json.load(open(meta))
+            fires = (m.get("detection") or {}).get("checks_that_fire") or {}
+            if prop in fires:
+                out.append((name, {"expect": "violation", "must_mention": [], "dir": os.path.join(d, name)}))
+    return out
+
+
 def run_mutant(prop, name, meta):
     """returns (ok, detail)"""
     src = os.environ.get("ORCA_REPO", "/repo")
@@ -32,7 +48,7 @@ def run_mutant(prop, name, meta):
     try:
         dst = os.path.join(tmp, "repo")
         shutil.copytree(src, dst, ignore=shutil.ignore_patterns("target", ".git", "output"))
-        patch = os.path.join(VERIF, "mutants", name, "patch.diff")
+        patch = os.path.join(meta.get("dir") or os.path.join(VERIF, "mutants", name), "patch.diff")
         p = subprocess.run(["patch", "-p1", "-s", "-i", patch], cwd=dst, stdout=subprocess.PIPE, stderr=subprocess.STDOUT, text=True)
         if p.returncode != 0:
             return False, "patch does not apply: " + p.stdout[-300:]
@@ -52,7 +68,7 @@ def run_mutant(prop, name, meta):
 
 def run_for_property(prop):
     res = {"mutants": 0, "caught": 0, "failed": []}
-    for name, meta in _mutants_for(prop):
+    for name, meta in _mutants_for(prop) + _seeded_for(prop):
         res["mutants"] += 1
         ok, detail = run_mutant(prop, name, meta)
         if ok:
